@@ -2,7 +2,7 @@ import json,sys
 r=json.load(open(sys.argv[1]))
 if r.get('error'): print('ERROR',r['error'])
 for f in r['funcs'] or []:
-    print(f['func'],f.get('variant',''),'ERR:' if f.get('error') else '',(f.get('error') or '')[:1500],'paths',f['paths'],'t',round(f['time_s'],1))
+    print(f['func'],f.get('variant',''),'ERR:' if f.get('error') else '',(f.get('error') or '').split('\n')[0][:300],'paths',f['paths'],'t',round(f['time_s'],1))
     for w in f.get('warnings') or []: print('  W',w)
     for o in f['obligations'] or []:
         if len(sys.argv)>2 and sys.argv[2]=='bad' and o['status'] in('discharged','canary-ok'): continue
